@@ -162,6 +162,7 @@ namespace TR
       std::vector< N > stack;
       stack.push_back( { -1, 0, 0, true, {} } );
       for( const auto& t : ri.trail ) {
+         if( t.exit == 2 ) continue;
          if( !t.exit ) {
             stack.push_back( { t.rule, t.pos, -1, true, {} } );
             continue;
